@@ -19,6 +19,8 @@ var expectedMiss = map[string]string{
 	"seeded/C07-a": "replaces the segment search of the step interpolation by a binary search on the truncated input: which segment is selected is not decided by design (relational); inside the chosen segment the expression stays monotone",
 	"seeded/C15-c": "cursor-based delete that removes the neighbouring fan's entry: key discipline of the store is C14's subject (C14 R-bucket / R-results report it); C15's rules concern when data is loaded and saved",
 	"seeded/C12-b": "targets the nearest-neighbour choice inside util.FindClosest, which is not decided by design (functional correctness of the search)",
+	"seeded/C04-f": "changes a numeric gain of the default PID configuration (and the README with it): whether the closed loop settles for a given gain and tick is dynamics, not decided by design",
+	"seeded/C15-f": "changes the lock time-out constant of the database: how likely a load fails under contention is quantitative (timing), not decided by design",
 }
 
 type variantResult struct {
